@@ -28,6 +28,7 @@ def alias (op : String) (args : List String) : String × List String :=
   | "sh.parse.twice", _ => ("sh.parse.pl", args)      -- an earlier parse of the same string (result scribbled over) changes nothing
   | "ib.sha512.handle", [f, _] => ("sha512", [f])     -- where the handle's read position was does not matter
   | "fault.retry", _ => ("fault", args)      -- plus: the same object serialised again afterwards gives the fault-free bytes
+  | "fault.dest", _ :: rest => ("fault", rest)      -- which optional methods (Flush, Sync, Close, WriteString, ReadFrom) the destination has besides Write is not input
   | "cw.seq", [k, room, seq] => ("cw.seq", [k, room, seq.replace "R" "r"])   -- R: the source reports io.EOF together with its last bytes
   | "mice.twice", [d, mx, dg, _, b] => ("mice.all", [d, mx, dg, b])
   | "sxg.reread", what :: _ :: rest => ("sxg." ++ what, rest)
